@@ -6,12 +6,9 @@ use iggy::{
     error::IggyError,
     utils::{byte_size::IggyByteSize, duration::IggyDuration, sizeable::Sizeable},
 };
-use std::{
-    io::IoSlice,
-    sync::{
-        atomic::{AtomicU64, Ordering},
-        Arc,
-    },
+use std::sync::{
+    atomic::{AtomicU64, Ordering},
+    Arc,
 };
 use tokio::{
     fs::{File, OpenOptions},
@@ -135,9 +132,8 @@ impl SegmentLogWriter {
         if let Some(ref mut file) = self.file {
             let header = batch_to_write.header_as_bytes();
             let batch_bytes = batch_to_write.bytes;
-            let slices = [IoSlice::new(&header), IoSlice::new(&batch_bytes)];
 
-            file.write_vectored(&slices)
+            super::write_batch_in_full(file, &header, &batch_bytes)
                 .await
                 .with_error_context(|error| {
                     format!("Failed to log to file: {}. {error}", self.file_path)
